@@ -5,6 +5,7 @@ interesting regions (boundaries of the rule, single mutations of accepted cells)
 """
 import calendar
 import keyword
+import re
 import unicodedata
 from decimal import Decimal
 
@@ -369,7 +370,18 @@ _SEPARATORS = [".", "-", "/", ":", " ", ", ", "", "%", "."]
 @st.composite
 def datetime_fields(draw, name, fmt):
     empty = draw(st.booleans())
-    shape = draw(st.sampled_from(["date", "date", "time", "datetime", "free"]))
+    shape = draw(st.sampled_from(["date", "date", "time", "datetime", "free", "standard", "standard"]))
+    if shape == "standard":
+        # the layouts most CIDs use
+        rule = draw(st.sampled_from(["hh:mm:ss", "hh:mm", "YYYY-MM-DD", "DD.MM.YYYY", "MM/DD/YYYY", "YYYY-MM-DD hh:mm:ss",
+                                     "DD.MM.YYYY hh:mm", "YYYYMMDD", "hhmmss", "DD.MM.YY", "YYYY-MM-DD hh:mm"]))
+        layout = [piece for piece in re.split(r"(YYYY|YY|DD|MM|hh|mm|ss)", rule) if piece]
+        length_text, length_items = "", None
+        if fmt["format"] == "fixed":
+            width = len(rule) + draw(st.integers(0, 2))
+            length_text, length_items = str(width), [[width, width]]
+        return {"name": name, "empty": empty, "length": length_text, "length_items": length_items, "type": "DateTime",
+                "rule": rule, "model": {"layout": layout}}
     if shape == "date":
         parts = draw(st.permutations(["DD", "MM", draw(st.sampled_from(["YYYY", "YYYY", "YY"]))]))
     elif shape == "time":
